@@ -1,4 +1,4 @@
-import DesperProofs.Lemmas.WorldLife
+import DesperProofs.Lemmas.WorldAtt
 /-
   C02 — Component lifecycle callbacks fire exactly once per attach/detach.
 
@@ -125,6 +125,20 @@ theorem C02_clear_keeps_relay (U : Universe) (s : St) (h : (clear U s).2 = .ok) 
   obtain ⟨h1, h2, h3, h4, _⟩ := clear_dispatcher U s h
   exact ⟨by rw [h1]; decide, h2, h3, h4⟩
 
+/-- Registered as a listener of the world's events exactly while attached — after every history
+(create, add, replace, remove, deferred or immediate delete, process, clear, processors, dispatch
+toggles) in which instances are attached fresh (`FreshHist`: an instance is attached to at most one
+entity at a time, a `create_entity` call gets components of pairwise distinct types — the D5a
+finding is outside —, components are not processors) and no callback raises.  A handler processor
+is registered exactly while it is one of the world's processors. -/
+theorem C02_registered_iff_attached (U : Universe) (hn : NoRaise U) (hints : List (List Ent))
+    (ops : List Op) (hf : FreshHist U { sweepHints := hints } ops) (o : Obj)
+    (ho : (U.mapOf o).isSome) :
+    let s := run U { sweepHints := hints } ops
+    (o ∈ s.registered ↔ (Attached s o ∨ o ∈ s.sorted)) ∧
+    (∀ e t e' t' x, Dict.get? (row s e) t = some x → Dict.get? (row s e') t' = some x → e = e' ∧ t = t') :=
+  ⟨(regInv_run hn hints ops hf).reg o ho, (regInv_run hn hints ops hf).one⟩
+
 /-! ### the guards are needed: known findings, as checked witnesses -/
 
 private def exU : Universe :=
@@ -147,6 +161,15 @@ theorem C02_D5a_duplicate_type_in_create :
   decide
 
 /-! non-vacuity of the theorems above -/
+example : FreshHist exU {} [.create none [0], .add 1 1, .remove 1 0, .clear, .create none [0]] := by
+  refine ⟨⟨by decide, by decide, ?_⟩, ⟨?_, ?_⟩, trivial, trivial, ⟨by decide, by decide, ?_⟩, trivial⟩
+  · intro c hc; simp only [List.mem_singleton] at hc; subst hc
+    exact ⟨not_attached_of_attachedB (by decide), by decide⟩
+  · exact not_attached_of_attachedB (by decide)
+  · decide
+  · intro c hc; simp only [List.mem_singleton] at hc; subst hc
+    exact ⟨not_attached_of_attachedB (by decide), by decide⟩
+
 example : exU.mapOf 0 = some [("on_add", "on_add"), ("on_remove", "on_remove")] ∧ NoRaise exU ∧
     Dict.get? (row (run exU {} [.create none [0]]) 1) 0 = some 0 ∧
     (run exU {} [.create none [0]]).enabled = true := by
